@@ -265,4 +265,7 @@ def cases(tier):
     for which in ("cma", "local"):
         cs.append(dict(name=f"library_bounds.{which}", fn=h_library_bounds, params=dict(which=which), oblig_timeout_s=60, **R))
     cs += tree_cases(PROPERTY, tier, hibernation_values=(False,)) + run_cases(PROPERTY, tier, hib_values=(False,))
+    # the repair kernels themselves (shared with C17): the result of every bound repair lies in the box for inputs up to 8 ranges away
+    from . import c17
+    cs += [c for c in c17.cases(tier) if c["name"].startswith(("repair.reflect", "repair.toroidal"))]
     return cs
